@@ -291,6 +291,8 @@ class Executor:
         return env
 
     def make(self, name, t, prov):
+        if callable(t):
+            return t(self, name)          # contract-supplied builder of a structured symbolic input
         t = t.strip()
         if t == "int":
             return z3.Int(name)
@@ -1978,6 +1980,15 @@ class Executor:
                 self.oblige("raises", z3.Not(self.spec_old(cond)), self.fn, label=f"no-{exc}-on-return",
                             note=f"normal return although the contract says {exc} iff {cond}")
         for lab, post in c.ensures.items():
+            if callable(post):
+                saved = getattr(self, "in_spec", False)
+                self.in_spec = True
+                try:
+                    goal = post(self, env, ret)
+                finally:
+                    self.in_spec = saved
+                self.oblige("post", goal, self.fn, label=lab)
+                continue
             self.oblige("post", self.spec(post, env, extra), self.fn, label=lab)
         self.exits.append(("return", len(self.pc)))
 
